@@ -13,6 +13,16 @@ package wal
 //              whole), optionally on top of a stale earlier WAL generation,
 //              compacted at every commit boundary.
 //
+// Both parts run at 512-byte and at 65536-byte pages (the only page size whose
+// length does not fit 16 bits); part sqlite also at 4096. Both parts cut WALs
+// short inside the page data of a frame (synthetic: the last frame of every
+// enumerated WAL, at 0/1/half/all-but-one bytes of page data; sqlite: every frame
+// of every WAL) and push the cut file through the checksum-verifying scan and
+// through the fast scan + Writer, the calls db.CheckpointManager makes. The fast
+// scan seeks over page data, so it accepts a cut frame and its commit marker; for
+// those files the demand is: an error, or an output that checkpoints to exactly
+// what SQLite makes of the same cut file (judgeCut).
+//
 // Oracle: SQLite checkpoints (copy of base + rqlite's compacted WAL) and (copy of
 // base + reference WAL holding exactly the valid committed frames from the
 // resume position, re-checksummed by c05W); the two database files must be
@@ -137,11 +147,12 @@ type c05P struct {
 	F         []c05PF // all slots to end of file, including a partial last one
 	FullValid int     // leading slots valid by SQLite's recovery rule (salt, pgno!=0, checksum chain, complete)
 	FastValid int     // leading slots with a complete frame header, matching salts and pgno!=0
+	CutData   int     // -1, or: the file ends after a complete frame header and this many (< page size) bytes of its page data
 }
 
 // c05Parse applies SQLite's WAL recovery rules (walIndexRecover/walDecodeFrame).
 func c05Parse(b []byte) c05P {
-	var p c05P
+	p := c05P{CutData: -1}
 	if len(b) < c05HdrSize {
 		return p
 	}
@@ -197,7 +208,16 @@ func c05Parse(b []byte) c05P {
 		}
 		p.F = append(p.F, f)
 	}
+	if n := len(p.F); n > 0 && p.F[n-1].HdrFull && !p.F[n-1].DataFull {
+		p.CutData = len(b) - p.F[n-1].Off - c05FHdrSize
+	}
 	return p
+}
+
+// cutOnly reports whether the one thing that separates the fast rule (frame header read, page data seeked
+// over) from SQLite's rule on this file is that the file ends inside the page data of its last frame.
+func (p *c05P) cutOnly() bool {
+	return p.HdrOK && p.CutData >= 0 && p.FullValid == len(p.F)-1 && p.FastValid == len(p.F)
 }
 
 func (p *c05P) data(b []byte, i int) []byte {
@@ -588,9 +608,10 @@ func c05Foreign(out []byte, orig []byte, p *c05P, valid int) bool {
 // Judging one (WAL, resume position, fullScan) case. Shared by both parts.
 
 type c05Judge struct {
-	r     *kit.Run
-	cache *c05Cache
-	fault func(f string, a ...any) // harness fault (the oracle itself is broken): fails the test
+	r       *kit.Run
+	cache   *c05Cache
+	fault   func(f string, a ...any) // harness fault (the oracle itself is broken): fails the test
+	nCutVio [2]atomic.Int64          // cut-WAL violations reported so far, per class
 }
 
 type c05Case struct {
@@ -636,9 +657,12 @@ func (j *c05Judge) judge(c *c05Case) string {
 	if panicked {
 		return mode + ":panic"
 	}
+	if !c.full && p.cutOnly() {
+		return j.judgeCut(c, &o)
+	}
 	if !c.full && p.FastValid != p.FullValid {
-		// A frame with matching salts but a bad checksum / cut page follows the valid prefix. Without
-		// fullScan the scanner is documented to trust such a WAL; nothing is demanded except no panic.
+		// A frame with matching salts but a bad checksum follows the valid prefix. Without fullScan the
+		// scanner is documented to trust such a WAL; nothing is demanded except no panic.
 		if e := o.err(); e != nil {
 			return mode + ":unjudged:error"
 		}
@@ -735,6 +759,78 @@ func (j *c05Judge) judge(c *c05Case) string {
 	return label
 }
 
+// judgeCut judges the fast (fullScan=false) scan + Writer on a WAL that ends inside the page data of its
+// last frame (frame header complete, salts right). The fast scan seeks over page data, so it takes that frame
+// - and its commit marker - at face value; the page bytes are only missed when the Writer asks for them.
+// Demanded: compaction reports an error, or what it emits checkpoints to exactly what SQLite makes of the
+// same cut file (SQLite ignores the incomplete frame and every frame of its unfinished transaction).
+func (j *c05Judge) judgeCut(c *c05Case, o *c05Out) string {
+	r, p := j.r, c.p
+	where := "partial-page-data"
+	if p.CutData == 0 {
+		where = "no-page-data"
+	}
+	lastCommit := "commit"
+	if p.F[len(p.F)-1].Commit == 0 {
+		lastCommit = "noncommit"
+	}
+	pre := "fast:cut:" + where + ":" + lastCommit
+	if e := o.err(); e != nil {
+		if e == ErrOpenTransaction {
+			return pre + ":error-open-tx"
+		}
+		return pre + ":error"
+	}
+	committed := c.start
+	for i := c.start; i < p.FullValid; i++ {
+		if p.F[i].Commit != 0 {
+			committed = i + 1
+		}
+	}
+	ref := c05Ref(c.wal, p, c.start, committed)
+	want := j.cache.get(c.baseKey, c.base, ref)
+	if want.Err != "" || want.Log != committed-c.start {
+		j.fault("reference WAL for a cut WAL not accepted by SQLite: %+v replay=%+v", want, c.replay)
+		return pre + ":harness-bad-reference"
+	}
+	if c.start == 0 {
+		// the reference really is what SQLite makes of the cut file itself
+		direct := j.cache.get(c.baseKey, c.base, c.wal)
+		if !direct.same(want) || direct.Log != committed {
+			j.fault("SQLite on the cut WAL itself (log=%d err=%q) disagrees with the model (%d committed frames before the cut): replay=%+v", direct.Log, direct.Err, committed, c.replay)
+			return pre + ":harness-bad-reference"
+		}
+		r.Validated(1)
+	}
+	label := fmt.Sprintf("%s:ok:%x", pre, want.H[:6])
+	check := func(out []byte, via string) {
+		got := j.cache.get(c.baseKey, c.base, out)
+		if got.same(want) {
+			return
+		}
+		ci := 0
+		if p.CutData == 0 {
+			ci = 1
+		}
+		diff := "database images differ"
+		if j.nCutVio[ci].Add(1) <= 16 { // the page-level diff costs two more uncached checkpoints: only for the first few of a class
+			a := j.cache.q.checkpoint(c.base, out)
+			b := j.cache.q.checkpoint(c.base, ref)
+			diff = fmt.Sprintf("sqlite recovered %d frames of it, err=%q: %s", a.Log, a.Err, c05DiffPages(a.DB, b.DB, int(p.H.PageSize)))
+		}
+		op := c05Parse(out)
+		what := fmt.Sprintf("fast scan from frame %d (%s) of a %s WAL that ends after %d of %d page-data bytes of its last frame (frame %d, %s; %d complete frames before it, %d of them committed): no error, scanner listed %d frames, %d written out; SQLite's checkpoint of the compacted WAL differs from SQLite's checkpoint of the same cut WAL (%s)",
+			c.start, via, c.class, p.CutData, p.H.PageSize, len(p.F)-1, lastCommit, p.FullValid, committed, o.NFrames, op.FullValid, diff)
+		r.Violation("C05:cut-wal-compacted-silently:"+c.group+where, what, c.replay)
+		label = pre + ":differs"
+	}
+	check(o.W, "Writer.WriteTo")
+	if o.BErr == nil && !bytes.Equal(o.B, o.W) {
+		check(o.B, "Bytes()")
+	}
+	return label
+}
+
 // ---------------------------------------------------------------------------
 // Part (i): synthetic WALs.
 
@@ -743,6 +839,7 @@ const c05PS = 512
 var c05Commits = []uint32{0, 3, 4}
 
 type c05Spec struct {
+	PS     int    `json:"ps,omitempty"` // page size; 0 = 512
 	BE     bool   `json:"be"`
 	Frames string `json:"frames"` // e.g. "1c0 2c4 3c3": page, commit marker
 	Flaw   string `json:"flaw"`   // clean | stale-tail | stale-s1 | stale-s2 | ck-data | ck-field | ck-hdr | cut | hdr-cut | hdr-ck | garbage-* | zero-pgno
@@ -779,10 +876,10 @@ func c05ParseFrames(s string) []c05Sym {
 // c05Page returns the page image carried by the frame at position pos for page pgno; every
 // (pos, pgno, gen) gives a different image, and none equals a base page. Page 1 stays a valid
 // database header (only user_version and application_id vary) so SQLite can open the file.
-func c05Page(base []byte, pos int, pgno uint32, gen int) []byte {
-	d := make([]byte, c05PS)
+func c05Page(base []byte, ps, pos int, pgno uint32, gen int) []byte {
+	d := make([]byte, ps)
 	if pgno == 1 {
-		copy(d, base[:c05PS])
+		copy(d, base[:ps])
 		d[60], d[61], d[62], d[63] = 0x45, byte(pos+1), byte(gen), 1
 		d[68], d[69], d[70], d[71] = 0x05, byte(pos+1), byte(gen), 0xEE
 		return d
@@ -795,13 +892,14 @@ func c05Page(base []byte, pos int, pgno uint32, gen int) []byte {
 }
 
 type c05Synth struct {
+	ps      int
 	base    []byte
 	baseKey [16]byte
 	pages   [8][5][2][]byte // [pos][pgno][gen]
 }
 
 func (s *c05Synth) hdr(be bool) c05Hdr {
-	return c05Hdr{BE: be, PageSize: c05PS, Seq: 7, Salt1: 0x1badcafe, Salt2: 0x600dd00d}
+	return c05Hdr{BE: be, PageSize: uint32(s.ps), Seq: 7, Salt1: 0x1badcafe, Salt2: 0x600dd00d}
 }
 
 const (
@@ -810,7 +908,13 @@ const (
 )
 
 var c05Flaws = []string{"stale-tail", "stale-s1", "stale-s2", "ck-data", "ck-field", "ck-hdr"}
-var c05Cuts = []int{1, 8, 16, 23, 24, 25, 24 + 256, 24 + 511}
+
+// cuts returns the numbers of bytes kept of the last frame: inside the frame header, the whole header and
+// none of the page data, and one byte / half / all but one byte of the page data.
+func (s *c05Synth) cuts() []int {
+	return []int{1, 8, 16, 23, 24, 25, 24 + s.ps/2, 24 + s.ps - 1}
+}
+
 var c05HdrCuts = []int{0, 1, 16, 31}
 var c05Garbage = []string{"garbage-short", "garbage-hdr", "garbage-zeros", "garbage-long"}
 
@@ -829,7 +933,7 @@ func (s *c05Synth) prep(be bool, fr []c05Sym) *c05BaseWAL {
 		w.frame(f.pg, f.commit, s.pages[i][f.pg][0])
 	}
 	w.frame(0, 4, s.pages[n][2][1])
-	old := c05NewW(c05Hdr{BE: be, PageSize: c05PS, Seq: 6, Salt1: c05StaleSalt1, Salt2: c05StaleSalt2}, n)
+	old := c05NewW(c05Hdr{BE: be, PageSize: uint32(s.ps), Seq: 6, Salt1: c05StaleSalt1, Salt2: c05StaleSalt2}, n)
 	for i, f := range fr {
 		old.frame(f.pg, f.commit, s.pages[i][f.pg][1])
 	}
@@ -841,7 +945,7 @@ func (s *c05Synth) prep(be bool, fr []c05Sym) *c05BaseWAL {
 func (s *c05Synth) variant(bw *c05BaseWAL, sp c05Spec, dst []byte) (wal []byte, intended int) {
 	fr := bw.fr
 	n := len(fr)
-	fs := c05FHdrSize + c05PS
+	fs := c05FHdrSize + s.ps
 	off := func(i int) int { return c05HdrSize + i*fs }
 	b := append(dst[:0], bw.cleanZ[:off(n)]...)
 	switch sp.Flaw {
@@ -856,7 +960,7 @@ func (s *c05Synth) variant(bw *c05BaseWAL, sp c05Spec, dst []byte) (wal []byte, 
 	case "stale-tail": // frames At.. are what an earlier, longer WAL generation left behind
 		return append(b[:off(sp.At)], bw.old[off(sp.At)-c05HdrSize:]...), sp.At
 	case "ck-data":
-		b[off(sp.At)+c05FHdrSize+(sp.At*97+5)%c05PS] ^= 0x40
+		b[off(sp.At)+c05FHdrSize+(sp.At*97+5)%s.ps] ^= 0x40
 		return b, sp.At
 	case "ck-field":
 		b[off(sp.At)+16+(sp.At%8)] ^= 0x01
@@ -918,42 +1022,50 @@ func c05FlawClass(sp c05Spec) string {
 func (s *c05Synth) variants(be bool, fr []c05Sym) []c05Spec {
 	n := len(fr)
 	fs := c05FramesString(fr)
-	v := []c05Spec{{BE: be, Frames: fs, Flaw: "clean"}}
+	ps := s.ps
+	if ps == c05PS {
+		ps = 0
+	}
+	v := []c05Spec{{PS: ps, BE: be, Frames: fs, Flaw: "clean"}}
 	for k := 0; k < n; k++ {
 		for _, f := range c05Flaws {
-			v = append(v, c05Spec{BE: be, Frames: fs, Flaw: f, At: k})
+			v = append(v, c05Spec{PS: ps, BE: be, Frames: fs, Flaw: f, At: k})
 		}
 	}
 	if n > 0 {
-		for _, c := range c05Cuts {
-			v = append(v, c05Spec{BE: be, Frames: fs, Flaw: "cut", At: c})
+		for _, c := range s.cuts() {
+			v = append(v, c05Spec{PS: ps, BE: be, Frames: fs, Flaw: "cut", At: c})
 		}
 	} else {
 		for _, c := range c05HdrCuts {
-			v = append(v, c05Spec{BE: be, Frames: fs, Flaw: "hdr-cut", At: c})
+			v = append(v, c05Spec{PS: ps, BE: be, Frames: fs, Flaw: "hdr-cut", At: c})
 		}
-		v = append(v, c05Spec{BE: be, Frames: fs, Flaw: "hdr-ck"})
+		v = append(v, c05Spec{PS: ps, BE: be, Frames: fs, Flaw: "hdr-ck"})
 	}
 	for _, g := range c05Garbage {
-		v = append(v, c05Spec{BE: be, Frames: fs, Flaw: g})
+		v = append(v, c05Spec{PS: ps, BE: be, Frames: fs, Flaw: g})
 	}
-	v = append(v, c05Spec{BE: be, Frames: fs, Flaw: "zero-pgno"})
+	v = append(v, c05Spec{PS: ps, BE: be, Frames: fs, Flaw: "zero-pgno"})
 	return v
 }
 
-func c05MakeSynthBase(t *testing.T, dir string) []byte {
-	p := filepath.Join(dir, "synthbase.db")
+func c05MakeSynthBase(t *testing.T, dir string, ps int) []byte {
+	p := filepath.Join(dir, fmt.Sprintf("synthbase%d.db", ps))
+	blob := 300 // the row of b overflows onto exactly one more page
+	if ps != c05PS {
+		blob = ps * 5 / 8
+	}
 	db, err := sql.Open("sqlite3", "file:"+p)
 	if err != nil {
 		t.Fatal(err)
 	}
 	db.SetMaxOpenConns(1)
 	for _, q := range []string{
-		"PRAGMA page_size=512", "PRAGMA journal_mode=WAL", "PRAGMA synchronous=OFF",
+		fmt.Sprintf("PRAGMA page_size=%d", ps), "PRAGMA journal_mode=WAL", "PRAGMA synchronous=OFF",
 		// roots on pages 2 and 3; page 4 is an overflow page, so the schema stays loadable when a
 		// synthetic commit marker shrinks the database to 3 pages
 		"CREATE TABLE a(x)", "CREATE TABLE b(x)",
-		"INSERT INTO a VALUES('base-a')", "INSERT INTO b VALUES('base-b'||hex(zeroblob(300)))",
+		"INSERT INTO a VALUES('base-a')", fmt.Sprintf("INSERT INTO b VALUES('base-b'||hex(zeroblob(%d)))", blob),
 		"PRAGMA user_version=77",
 	} {
 		if _, err := db.Exec(q); err != nil {
@@ -971,8 +1083,12 @@ func c05MakeSynthBase(t *testing.T, dir string) []byte {
 	if err != nil {
 		t.Fatal(err)
 	}
-	if len(base) != 4*c05PS || base[18] != 2 || base[19] != 2 {
-		t.Fatalf("unexpected synthetic base: %d bytes, format %d/%d", len(base), base[18], base[19])
+	hps := int(binary.BigEndian.Uint16(base[16:]))
+	if hps == 1 {
+		hps = 65536
+	}
+	if len(base) != 4*ps || hps != ps || base[18] != 2 || base[19] != 2 {
+		t.Fatalf("unexpected synthetic base: %d bytes, page size %d, format %d/%d", len(base), hps, base[18], base[19])
 	}
 	// Make "version-valid-for" differ from the change counter, as a pre-3.7.0 writer leaves it: SQLite then
 	// ignores the in-header page count and uses the real size, so one page-1 image is valid whatever
@@ -993,22 +1109,39 @@ func TestVerif_C05_synthetic(t *testing.T) {
 		r.Cap("VERIF_C05_N=%d overrides the frame bound", v)
 	}
 	NV := r.Pick(2, 3) // whole flawed WALs of up to NV frames are also handed to SQLite to validate the harness's validity model
-	r.Rule(fmt.Sprintf("every WAL of <=%d frames (<=%d with big-endian checksum magic) over frame alphabet page{1,2,3,4} x commit{0,3,4} on a real 4-page 512-byte-page SQLite database, every frame carrying a distinct page image; each WAL clean and with every single flaw: stale-salt tail from an earlier generation at any frame, one frame with only salt1 / only salt2 stale, checksum broken by a data byte / checksum field / page-number change at any frame, last frame cut at 8 offsets, header cut/corrupt (empty WAL), 4 kinds of trailing garbage, a checksummed page-0 frame; each compacted by NewCompactingFrameScanner+Writer.WriteTo (and Bytes()) with fullScan at frame 0 and without fullScan at every commit boundary of the valid prefix. distinct = (mode, outcome, final database image)", N, NBE))
+	// the same enumeration at SQLite's largest page size, the only one whose length does not fit 16 bits
+	const bigPS = 65536
+	NBig, NBigBE := r.Pick(2, 3), r.Pick(1, 2)
+	if NBig > N {
+		NBig, NBigBE = N, N
+	}
+	r.Rule(fmt.Sprintf("every WAL of <=%d frames (<=%d with big-endian checksum magic) over frame alphabet page{1,2,3,4} x commit{0,3,4} on a real 4-page 512-byte-page SQLite database, and every such WAL of <=%d frames (<=%d big-endian) on a real 4-page 65536-byte-page database, every frame carrying a distinct page image; each WAL clean and with every single flaw: stale-salt tail from an earlier generation at any frame, one frame with only salt1 / only salt2 stale, checksum broken by a data byte / checksum field / page-number change at any frame, last frame cut at 8 offsets (1,8,16,23 bytes of its header; whole header and 0, 1, half, all but one byte of its page data), header cut/corrupt (empty WAL), 4 kinds of trailing garbage, a checksummed page-0 frame; each compacted by NewCompactingFrameScanner+Writer.WriteTo (and Bytes()), the calls db.CheckpointManager makes, with fullScan at frame 0 and without fullScan at every commit boundary of the valid prefix. A WAL cut inside the page data of its last frame is judged in both modes: with fullScan like any other file (the cut frame ends the valid prefix), without fullScan (the scan seeks over page data and takes the cut frame and its commit marker at face value) the compaction must report an error or emit a WAL that checkpoints to exactly what SQLite makes of the same cut file. distinct = (mode, outcome, final database image)", N, NBE, NBig, NBigBE))
 	r.Assume("SQLite's WAL recovery and checkpoint (PRAGMA wal_checkpoint) are the reference semantics of a WAL; a checkpoint result is a deterministic function of (database bytes, WAL bytes) and is memoised on that pair")
-	r.Assume("without fullScan a frame with matching salts but bad checksum or missing page bytes is outside the documented contract (trusted WAL): only absence of panics is required there")
+	r.Assume("without fullScan a complete frame with matching salts but a bad checksum is outside the documented contract (trusted WAL): only absence of panics is required there. A file that simply ends inside a frame's page data is not excluded: an error or SQLite's own reading of the cut file is demanded")
 
 	dir := kit.Scratch(t)
 	q := c05NewSQ(dir)
 	defer q.closeAll()
 	cache := c05NewCache(q)
-	s := &c05Synth{base: c05MakeSynthBase(t, dir)}
-	s.baseKey = c05Key(s.base)
-	for pos := range s.pages {
-		for pg := 1; pg <= 4; pg++ {
-			for gen := 0; gen < 2; gen++ {
-				s.pages[pos][pg][gen] = c05Page(s.base, pos, uint32(pg), gen)
+	synths := map[int]*c05Synth{}
+	synth := func(ps int) *c05Synth {
+		if ps == 0 {
+			ps = c05PS
+		}
+		if s := synths[ps]; s != nil {
+			return s
+		}
+		s := &c05Synth{ps: ps, base: c05MakeSynthBase(t, dir, ps)}
+		s.baseKey = c05Key(s.base)
+		for pos := range s.pages {
+			for pg := 1; pg <= 4; pg++ {
+				for gen := 0; gen < 2; gen++ {
+					s.pages[pos][pg][gen] = c05Page(s.base, ps, pos, uint32(pg), gen)
+				}
 			}
 		}
+		synths[ps] = s
+		return s
 	}
 	var harnessFaults, nValidated atomic.Int64
 	fault := func(f string, a ...any) {
@@ -1020,7 +1153,7 @@ func TestVerif_C05_synthetic(t *testing.T) {
 
 	// runSpec judges every (start, mode) case of one WAL variant. validate => also feed the whole
 	// flawed WAL to SQLite and compare its recovery with the harness's model of the valid prefix.
-	runSpec := func(sp c05Spec, bw *c05BaseWAL, wk *c05Work, validate bool, only *c05Replay, seen map[string]struct{}) {
+	runSpec := func(s *c05Synth, sp c05Spec, bw *c05BaseWAL, wk *c05Work, validate bool, only *c05Replay, seen map[string]struct{}) {
 		walb, intended := s.variant(bw, sp, wk.wal)
 		wk.wal = walb[:0]
 		p := c05Parse(walb)
@@ -1028,6 +1161,9 @@ func TestVerif_C05_synthetic(t *testing.T) {
 		class := sp.Flaw
 		if sp.BE {
 			class += " big-endian"
+		}
+		if s.ps != c05PS {
+			class += fmt.Sprintf(" page-size-%d", s.ps)
 		}
 		if p.HdrOK != (flaw != "bad-header") || (p.HdrOK && p.FullValid != intended) {
 			fault("parser finds %d valid frames (hdr %v), spec %+v intends %d", p.FullValid, p.HdrOK, sp, intended)
@@ -1074,7 +1210,7 @@ func TestVerif_C05_synthetic(t *testing.T) {
 			}
 			rp := c05Replay{Part: "synthetic", Spec: sp, Start: c.start, Full: c.full}
 			out := j.judge(&c05Case{wal: walb, p: &p, base: s.base, baseKey: s.baseKey, start: c.start, full: c.full, class: class, flaw: flaw, lenient: lenient, replay: rp, wk: wk})
-			seen[fmt.Sprintf("%s|%v|%s|%d", flaw, sp.BE, out, c.start)] = struct{}{}
+			seen[fmt.Sprintf("%d|%s|%v|%s|%d", s.ps, flaw, sp.BE, out, c.start)] = struct{}{}
 			if only != nil {
 				t.Logf("replay %+v -> %s", rp, out)
 			}
@@ -1087,12 +1223,14 @@ func TestVerif_C05_synthetic(t *testing.T) {
 		if err := json.Unmarshal(raw, &rp); err != nil {
 			t.Fatal(err)
 		}
-		runSpec(rp.Spec, s.prep(rp.Spec.BE, c05ParseFrames(rp.Spec.Frames)), &c05Work{}, true, &rp, map[string]struct{}{})
+		s := synth(rp.Spec.PS)
+		runSpec(s, rp.Spec, s.prep(rp.Spec.BE, c05ParseFrames(rp.Spec.Frames)), &c05Work{}, true, &rp, map[string]struct{}{})
 		return
 	}
 
 	// Enumerate base WALs.
 	type job struct {
+		s  *c05Synth
 		be bool
 		fr []c05Sym
 	}
@@ -1103,14 +1241,14 @@ func TestVerif_C05_synthetic(t *testing.T) {
 			alpha = append(alpha, c05Sym{pg, c})
 		}
 	}
-	gen := func(be bool, n int) {
+	gen := func(s *c05Synth, be bool, n int) {
 		idx := make([]int, n)
 		for {
 			fr := make([]c05Sym, n)
 			for i, k := range idx {
 				fr[i] = alpha[k]
 			}
-			jobs = append(jobs, job{be, fr})
+			jobs = append(jobs, job{s, be, fr})
 			k := n - 1
 			for k >= 0 {
 				idx[k]++
@@ -1125,11 +1263,19 @@ func TestVerif_C05_synthetic(t *testing.T) {
 			}
 		}
 	}
+	// the large-page WALs first: they are the expensive ones and must not form the tail of the run
+	for n := NBig; n >= 0; n-- {
+		gen(synth(bigPS), false, n)
+	}
+	for n := NBigBE; n >= 0; n-- {
+		gen(synth(bigPS), true, n)
+	}
+	nBigJobs := len(jobs)
 	for n := 0; n <= N; n++ {
-		gen(false, n)
+		gen(synth(c05PS), false, n)
 	}
 	for n := 0; n <= NBE; n++ {
-		gen(true, n)
+		gen(synth(c05PS), true, n)
 	}
 
 	var next, nWAL atomic.Int64
@@ -1152,9 +1298,9 @@ func TestVerif_C05_synthetic(t *testing.T) {
 					return
 				}
 				jb := jobs[i]
-				bw := s.prep(jb.be, jb.fr)
-				for vi, sp := range s.variants(jb.be, jb.fr) {
-					runSpec(sp, bw, wk, len(jb.fr) <= NV, nil, seen)
+				bw := jb.s.prep(jb.be, jb.fr)
+				for vi, sp := range jb.s.variants(jb.be, jb.fr) {
+					runSpec(jb.s, sp, bw, wk, len(jb.fr) <= NV, nil, seen)
 					nWAL.Add(1)
 					if vi == 3 {
 						r.SampleEvery(i, sp)
@@ -1166,6 +1312,7 @@ func TestVerif_C05_synthetic(t *testing.T) {
 	wg.Wait()
 	r.State(int(nWAL.Load()))
 	r.Set("base_wals", len(jobs))
+	r.Set("base_wals_page_size_65536", nBigJobs)
 	r.Set("wal_variants", nWAL.Load())
 	r.Set("sqlite_checkpoints_run", cache.calls.Load()+nValidated.Load())
 	r.Set("sqlite_checkpoints_memoised", cache.hits.Load())
@@ -1250,6 +1397,13 @@ type c05RealReplay struct {
 	Script c05Script `json:"script"`
 	Start  int       `json:"start"`
 	Full   bool      `json:"full"`
+	Cut    *c05Cut   `json:"cut,omitempty"`
+}
+
+// c05Cut: the WAL file ends after the header of frame Frame (0-based) and Data bytes of its page data.
+type c05Cut struct {
+	Frame int `json:"frame"`
+	Data  int `json:"page_data_bytes_kept"`
 }
 
 // c05RunScript lets SQLite produce a WAL for the script (autocheckpoint off). It returns the database file
@@ -1342,12 +1496,11 @@ func TestVerif_C05_sqlite(t *testing.T) {
 	r := kit.Start(t, "C05", "sqlite")
 	defer r.Finish()
 	D := r.Pick(3, 4)
-	sizes := []int{512, 4096}
-	if r.Thorough() {
-		sizes = append(sizes, 65536)
-	}
-	r.Rule(fmt.Sprintf("every script of <=%d steps over {insert rows, update rows, delete rows, grow (16 large rows), VACUUM, DROP TABLE, CREATE TABLE+overflow row} run by real SQLite (wal_autocheckpoint=0) at page sizes %v, each on a clean WAL and on a WAL restarted over a longer, fully checkpointed earlier generation (real stale frames behind the new ones); the WAL is compacted with fullScan at frame 0 and without fullScan at every commit boundary; for resume position k the base database is the base with frames [0,k) checkpointed by SQLite. distinct = (mode, outcome, final database image)", D, sizes))
+	sizes := []int{512, 4096, 65536}
+	depth := map[int]int{512: D, 4096: D, 65536: r.Pick(2, 4)} // 65536-byte pages make megabyte WALs: fewer steps at quick
+	r.Rule(fmt.Sprintf("every script of <=%d steps (<=%d at page size 65536) over {insert rows, update rows, delete rows, grow (16 large rows), VACUUM, DROP TABLE, CREATE TABLE+overflow row} run by real SQLite (wal_autocheckpoint=0) at page sizes %v, each on a clean WAL and on a WAL restarted over a longer, fully checkpointed earlier generation (real stale frames behind the new ones); the WAL is compacted by NewCompactingFrameScanner+Writer.WriteTo (the calls db.CheckpointManager makes) with fullScan at frame 0 and without fullScan at every commit boundary; for resume position k the base database is the base with frames [0,k) checkpointed by SQLite. Then the same WAL cut short (torn write): for EVERY frame k the file cut after the frame header plus half of its page data, and after the frame header alone (zero bytes of page data); for the final commit frame also after 1 and after all but one byte of page data; each cut file compacted with fullScan at 0 (the cut frame ends the valid prefix: judged as above, an open trailing transaction must be an error), without fullScan at 0 and without fullScan at the last commit boundary before the cut frame (compaction must report an error or emit a WAL that checkpoints to exactly what SQLite makes of the same cut file). distinct = (mode, outcome, final database image)", D, depth[65536], sizes))
 	r.Assume("SQLite's WAL recovery and checkpoint (PRAGMA wal_checkpoint) are the reference semantics of a WAL")
+	r.Assume("without fullScan a complete frame with matching salts but a bad checksum is outside the documented contract (trusted WAL). A file that simply ends inside a frame's page data is not excluded: an error or SQLite's own reading of the cut file is demanded")
 
 	dir := kit.Scratch(t)
 	q := c05NewSQ(dir)
@@ -1363,7 +1516,7 @@ func TestVerif_C05_sqlite(t *testing.T) {
 			t.Errorf("HARNESS FAULT: "+f, a...)
 		}
 	}
-	var staleSeen, framesTotal, maxFrames atomic.Int64
+	var staleSeen, framesTotal, maxFrames, cutWALs, cutCases atomic.Int64
 	j := &c05Judge{r: r, cache: cache, fault: fault}
 
 	runScript := func(sc c05Script, only *c05RealReplay) {
@@ -1420,7 +1573,7 @@ func TestVerif_C05_sqlite(t *testing.T) {
 		wk := &c05Work{}
 		bk, bkAt := dbBase, 0 // database with frames [0,bkAt) checkpointed
 		one := func(start int, full bool) {
-			if only != nil && (only.Start != start || only.Full != full) {
+			if only != nil && (only.Cut != nil || only.Start != start || only.Full != full) {
 				return
 			}
 			bkKey := c05Key(bk)
@@ -1442,7 +1595,9 @@ func TestVerif_C05_sqlite(t *testing.T) {
 			}
 		}
 		one(0, true)
-		for _, b := range p.boundaries(valid) {
+		bounds := p.boundaries(valid)
+		bks := make([][]byte, len(bounds)) // bks[i]: the database with frames [0,bounds[i]) checkpointed
+		for i, b := range bounds {
 			if b > bkAt {
 				pre := q.checkpoint(bk, c05Ref(walb, &p, bkAt, b))
 				if pre.Err != "" || pre.Log != b-bkAt {
@@ -1451,7 +1606,68 @@ func TestVerif_C05_sqlite(t *testing.T) {
 				}
 				bk, bkAt = pre.DB, b
 			}
+			bks[i] = bk
 			one(b, false)
+		}
+
+		// The same WAL torn: the file ends inside the page data of frame k.
+		bkKeys := make([][16]byte, len(bounds))
+		for i := range bks {
+			bkKeys[i] = c05Key(bks[i])
+		}
+		for k := 0; k < valid; k++ {
+			datas := []int{sc.PS / 2, 0}
+			if k == valid-1 {
+				datas = []int{sc.PS / 2, 0, 1, sc.PS - 1}
+			}
+			bi := 0 // last commit boundary at or before frame k
+			for i, b := range bounds {
+				if b <= k {
+					bi = i
+				}
+			}
+			for _, nd := range datas {
+				if only != nil && (only.Cut == nil || only.Cut.Frame != k || only.Cut.Data != nd) {
+					continue
+				}
+				cut := walb[:c05HdrSize+k*p.FS+c05FHdrSize+nd]
+				cp := c05Parse(cut)
+				if !cp.cutOnly() || cp.FullValid != k || cp.CutData != nd {
+					fault("script %+v: cut at frame %d + %d data bytes parsed as %d/%d valid frames, cut %d", sc, k, nd, cp.FullValid, cp.FastValid, cp.CutData)
+					return
+				}
+				cutWALs.Add(1)
+				kind := "commit"
+				if p.F[k].Commit == 0 {
+					kind = "non-commit"
+				}
+				ccl := fmt.Sprintf("SQLite-written (page size %d, %d frames) and then cut inside %s frame %d,", sc.PS, valid, kind, k)
+				type cs struct {
+					start, bi int
+					full      bool
+				}
+				cases := []cs{{0, 0, true}, {0, 0, false}}
+				if bounds[bi] > 0 {
+					cases = append(cases, cs{bounds[bi], bi, false})
+				}
+				for _, c := range cases {
+					if only != nil && (only.Start != c.start || only.Full != c.full) {
+						continue
+					}
+					rp := c05RealReplay{Part: "sqlite", Script: sc, Start: c.start, Full: c.full, Cut: &c05Cut{Frame: k, Data: nd}}
+					out := j.judge(&c05Case{wal: cut, p: &cp, base: bks[c.bi], baseKey: bkKeys[c.bi], start: c.start, full: c.full, class: ccl, flaw: "truncated", group: "sqlite:", replay: rp, wk: wk})
+					r.Eval(1)
+					cutCases.Add(1)
+					pos := "mid"
+					if k == valid-1 {
+						pos = "last"
+					}
+					r.Distinct(fmt.Sprintf("%d|cut-%s|%s|%v", sc.PS, pos, out, c.start > 0))
+					if only != nil {
+						t.Logf("replay script=%+v start=%d full=%v cut=%+v -> %s", rp.Script, rp.Start, rp.Full, *rp.Cut, out)
+					}
+				}
+			}
 		}
 	}
 
@@ -1469,11 +1685,11 @@ func TestVerif_C05_sqlite(t *testing.T) {
 
 	var scripts []c05Script
 	var rec func(prefix []string)
-	for _, ps := range sizes {
+	for _, ps := range []int{65536, 512, 4096} { // the expensive page size first, not as the tail of the run
 		for _, pre := range []bool{false, true} {
 			rec = func(prefix []string) {
 				scripts = append(scripts, c05Script{PS: ps, Prelude: pre, Steps: append([]string(nil), prefix...)})
-				if len(prefix) == D {
+				if len(prefix) == depth[ps] {
 					return
 				}
 				for _, s := range c05StepNames {
@@ -1505,5 +1721,7 @@ func TestVerif_C05_sqlite(t *testing.T) {
 	r.Set("wals_with_real_stale_frames", staleSeen.Load())
 	r.Set("valid_frames_total", framesTotal.Load())
 	r.Set("max_valid_frames_in_a_wal", maxFrames.Load())
+	r.Set("cut_wals", cutWALs.Load())
+	r.Set("cut_wal_cases", cutCases.Load())
 	r.Note("for every script SQLite's live checkpoint, a fresh-connection checkpoint of its WAL, and prefix-then-suffix checkpoints of re-checksummed reference WALs were checked to agree before judging rqlite's output")
 }
